@@ -31,8 +31,8 @@ type Case struct {
 	ALPN    []string `json:"alpn,omitempty"`
 	EMS     int      `json:"ems,omitempty"`
 	CCert   bool     `json:"ccert,omitempty"`
-	A       int      `json:"a"` // records client->server before the export
-	B       int      `json:"b"` // records server->client before the export
+	A       int      `json:"a"`    // records client->server before the export
+	B       int      `json:"b"`    // records server->client before the export
 	Side    string   `json:"side"` // C, S, both
 	C2      int      `json:"c2"`   // records each way after the import
 	Second  bool     `json:"second,omitempty"`
